@@ -6,12 +6,14 @@ import (
 	"strings"
 
 	"github.com/ChrisTrenkamp/xsel"
+	"github.com/ChrisTrenkamp/xsel/parser"
+	"github.com/ChrisTrenkamp/xsel/store"
 	"golang.org/x/net/html"
 
 	"xselverif/internal/adoc"
-	"xselverif/internal/refeval"
 	"xselverif/internal/bridge"
 	"xselverif/internal/evid"
+	"xselverif/internal/refeval"
 	"xselverif/internal/rng"
 )
 
@@ -20,7 +22,7 @@ import (
 func init() {
 	Register(&Monitor{
 		ID: "C17",
-		Rule: "per case a doctype-prefixed tag soup from a vocabulary that triggers the tree builder's insertion modes (tables, lists, formatting elements, select, template, raw-text and RCDATA elements, void elements, svg/math foreign content, stray end tags, attributes incl. xmlns, xmlns:x, prefixed and duplicate ones, comments everywhere incl. after </html>), depth up to 500 and width up to 5000 in the thorough tier -> xsel.ReadHtml from a reader whose delivery pattern (one Read / pseudo-random chunks / one byte per Read / a Read ending after every '>') is determined by the bytes; " +
+		Rule: "per case a doctype-prefixed tag soup from a vocabulary that triggers the tree builder's insertion modes (tables, lists, formatting elements, select, template, raw-text and RCDATA elements, void elements, svg/math foreign content, stray end tags, attributes incl. xmlns, xmlns:x, prefixed and duplicate ones, comments everywhere incl. after </html>), depth up to 500 and width up to 5000 in the thorough tier -> xsel.ReadHtml from a reader whose delivery pattern (one Read / pseudo-random chunks / one byte per Read / a Read ending after every '>') is determined by the bytes; every twentieth case parses two pages with two parser.ReadHtml parsers pulled alternately, one event each, and each tree must mirror its own page; " +
 			"oracle: html.Parse on the same bytes walked recursively by the monitor (doctype skipped, local names after the prefix, attributes minus xmlns declarations) compared by parallel walk with the cursor tree plus the C10 structural invariants: same nesting/order, equal text and comment data, every name in no namespace, no namespace nodes, nothing skipped or duplicated. distinct_nontrivial = distinct DOM shape signatures",
 		Assumptions: []string{"names with more than one ':' are not generated (prefix stripping is then ambiguous)", "golang.org/x/net/html is the definition of the HTML5 tree (as the property states)"},
 		NCases:      func(tier string) int { return map[string]int{"quick": 200000, "thorough": 2000000}[tier] },
@@ -125,7 +127,55 @@ func safeReadHtml(b []byte) (c xsel.Cursor, err error) {
 	return xsel.ReadHtml(rd)
 }
 
+// c17Alternating: two HTML parsers pulled alternately (one event each), as a program merging two
+// pages does; each tree must still mirror its own page.
+func c17Alternating(r *evid.Run, idx int, g *rng.R) {
+	var srcs [2]string
+	var docs [2]*adoc.Doc
+	for k := 0; k < 2; k++ {
+		var sb strings.Builder
+		sb.WriteString("<!DOCTYPE html>")
+		budget := g.Range(4, 40)
+		genSoup(g, &sb, 0, g.Range(1, 5), &budget)
+		srcs[k] = sb.String()
+		dom, err := html.Parse(strings.NewReader(srcs[k]))
+		if err != nil {
+			return
+		}
+		docs[k] = adoc.NewDoc()
+		if domToDoc(dom, docs[k], docs[k].Root) != nil {
+			return
+		}
+		docs[k].Finish()
+	}
+	pa, ea := parser.ReadHtml(strings.NewReader(srcs[0]))
+	pb, eb := parser.ReadHtml(strings.NewReader(srcs[1]))
+	if ea != nil || eb != nil {
+		r.Violate("rejected", map[string]any{"case": idx, "what": fmt.Sprintf("parser.ReadHtml failed: %v %v", ea, eb), "html": srcs[0]})
+		return
+	}
+	ra, rb, ea, eb := buildAlternating(pa, pb)
+	r.Eval(2)
+	r.Count("alternating_parser_pairs", 1)
+	for k, t := range []struct {
+		root store.Cursor
+		err  error
+	}{{ra, ea}, {rb, eb}} {
+		if t.err != nil {
+			r.Violate("alternating/error", map[string]any{"case": idx, "what": fmt.Sprintf("page %d of two pages parsed alternately: %v", k, t.err), "html": srcs[k]})
+			continue
+		}
+		if class, what := checkStore(t.root, docs[k]); class != "" {
+			r.Violate("alternating/"+class, map[string]any{"case": idx, "what": fmt.Sprintf("page %d of two pages parsed alternately: %s", k, what), "html": srcs[k], "other_html": srcs[1-k]})
+		}
+	}
+}
+
 func c17Case(r *evid.Run, tier string, idx int, g *rng.R) {
+	if idx%20 == 7 {
+		c17Alternating(r, idx, g)
+		return
+	}
 	var sb strings.Builder
 	sb.WriteString(rng.Pick(g, []string{"<!DOCTYPE html>", "<!doctype html>\n", "<!DOCTYPE html PUBLIC \"-//W3C//DTD HTML 4.01//EN\">", "<!DOCTYPE html><!--first-->"}))
 	budget := g.Range(3, 60)
@@ -180,7 +230,6 @@ func c17Case(r *evid.Run, tier string, idx int, g *rng.R) {
 		r.Sample("html", 3, map[string]any{"case": idx, "html": text, "tree": d.Dump()})
 	}
 }
-
 
 // newHTMLWorld builds a tag soup, takes golang.org/x/net/html's tree of it as the reference
 // document and realises it through xsel.ReadHtml (R-html). An error means that ReadHtml's tree
